@@ -62,6 +62,10 @@ P = {
    text="Decided: retryOnError attempts before returning; controller-bound closures look the controller up on each attempt, refresh it on NOT_CONTROLLER and return an error type the retry predicate recognises; nil only for a present item with ErrNoError (also for the collect-errors idiom); routing table of the leader/coordinator/controller-bound operations by provenance of the *Broker receiver (through local maps keyed by broker); every constant request version stored anywhere is guarded by a configured-version test implying the type's own requiredVersion() (tables evaluated statically). One known finding (F15).",
    note="How many controller moves happen versus Retry.Max, and the brokers' verdicts, are run-time facts not covered.",
    technique="SSA provenance classification, must-precede queries, static evaluation of requiredVersion() switch tables against IsAtLeast guards"),
+ "C20": dict(claimed=True,
+   text="Decided on every path of the mocks package: at most one outcome per input message in the mock async producer, sync producer returns the scripted result or the reported deviation's error; expectations consumed from the head one per message (len(msgs) for batches) under a non-empty test; partition = configured partitioner over configured partition count, stored and returned; lastOffset++ once per success, consumer offsets from the atomic counter; the ErrorReporter is called exactly at the tabled deviation sites, once per message; expectation state under the mock's mutex (lockset).",
+   note="Behaviour of user-supplied checkers/partitioners and channel-capacity effects are not covered. The Errorf site table is frozen per function (count), not per position.",
+   technique="SSA per-iteration path counting, provenance matching, who-may-call table, lockset"),
  "C01": dict(claimed=True,
    text="Structural necessary conditions of exactly-one-outcome decided on every CFG path of the producer pipeline (emit/Done pairing, no partially disposed batch, marker accounting, exactly-once routing of every partition set, retry budget guards, Wait-before-close, sync-producer expectation protocol). It is not a proof of the behaviour: cross-goroutine liveness of the retry loop is not covered.",
    note="Trusts go/ssa's model of the source; disposer functions are computed as a fixed point from the source, channel/field anchors are named in rules_c01.go.",
